@@ -1,7 +1,7 @@
 (* C19 -- time tags, counters and scaled/normalised values are lossless field records.
    Only statements here; every c_* below is regenerated from /repo on each run. *)
 From Coq Require Import ZArith List Bool.
-From L60870 Require Import Base.CInt Time.FloatPrims Time.C19Frames Time.C19Time Time.C19Scaled
+From L60870 Require Import Base.CInt Time.FloatPrims Time.C19Frames Time.C19Time Time.C19Scaled Time.C19Clamp
      gen.GenTime gen.GenBcr gen.GenIO gen.GenFloat.
 Import ListNotations.
 Local Open Scope Z_scope.
@@ -115,3 +115,19 @@ Theorem C19_saturate_partial : forall f,
   (f_gt f NMAX = true -> c_NormalizedValue_toScaled f = 32767) /\
   (f_lt f NMIN = true -> c_NormalizedValue_toScaled f = -32768).
 Proof. intros f. split; [exact (saturate_high f) | exact (saturate_low f)]. Qed.
+
+(* saturation in the other direction, for EVERY C int (modelled as Z): out-of-range scaled integers are clamped to the
+   ends of the 16-bit range before the division, so raw -> normalised float -> raw is exactly the clamp (the identity
+   inside the range); the two ends are the floats 32767/32768 and -1 at which the float direction saturates *)
+Theorem C19_fromScaled_saturates : forall r,
+  (32767 < r -> c_NormalizedValue_fromScaled r = c_NormalizedValue_fromScaled 32767) /\
+  (r < -32768 -> c_NormalizedValue_fromScaled r = c_NormalizedValue_fromScaled (-32768)) /\
+  c_NormalizedValue_toScaled (c_NormalizedValue_fromScaled r) = clamp16 r.
+Proof. intros r. split; [exact (fromScaled_high r) | split; [exact (fromScaled_low r) | exact (raw_clamp r)]]. Qed.
+Theorem C19_fromScaled_ends :
+  f_eq (c_NormalizedValue_fromScaled 32767) NMAX = true /\ f_eq (c_NormalizedValue_fromScaled (-32768)) NMIN = true.
+Proof. exact fromScaled_ends. Qed.
+Example C19_fromScaled_saturates_nonvacuous :
+  clamp16 40000 = 32767 /\ clamp16 (-40000) = -32768 /\ clamp16 123 = 123 /\
+  c_NormalizedValue_toScaled (c_NormalizedValue_fromScaled 2147483647) = 32767.
+Proof. repeat split; vm_compute; reflexivity. Qed.
